@@ -18,13 +18,24 @@ RULE = ("grid of 70 version strings (\"\", 8 strings the default comparer refuse
         "(open-ended, (\"\",\"\"), inverted, zero-width, unparsable bounds mixed in) in ALL permutations, 300 (5000) random targets of 1..4 capabilities with 0..4 ranges "
         "in original/reversed/shuffled order with shuffled ranges and with one capability pointer registered twice, malformed argument lists; "
         "fn 3: SetCapabilities with a recording Version, the exact SetCapability call sequence and the error (class + the two strings named in the message) "
-        "for all 70 versions. Non-trivial = the target has at least one range; distinct by (fn, input).")
+        "for all 70 versions. Capability OBJECTS identified by position, never by description (fn 4/5/6/7): fn 4 = targets whose capabilities share "
+        "descriptions (all empty, all equal, pairwise distinct, drawn from a small pool, one repeating another's, an UNREGISTERED object repeating a registered "
+        "one's), built by NewCapability or as struct literals (empty / nil VersionRanges), listed in original/reversed/shuffled order and with one object "
+        "listed twice, Has asked for EVERY object: exhaustive two-object enumeration (7 shapes of the second object x 3 description pairs x construction kinds "
+        "x 9 listings) + 400 (6000) random sets x 4 listings; fn 7 = the same through SetCapabilities with a recording Version, 150 (2500); fn 5 = scripts of "
+        "calls on ONE Version object (DefaultVersion.SetCapability / Has / VersionString directly and on value copies, Target.SetCapabilities with several "
+        "targets/comparers on a version that already carries answers, ranges appended to a capability in between; Version = NewDefaultVersion, caller-supplied "
+        "structs embedding it as interface / pointer / value, the zero value DefaultVersion{}), 90 enumerated + 500 (8000) random; fn 6 = VersionRange.String / "
+        "Capability.String for every bound of the grid + 300 (3000) random objects. "
+        "Non-trivial = the target has at least one range; distinct by (fn, input).")
 TRUSTED = ["Coq 8.16.1 kernel + vm_compute (no native_compute)",
            "hand-written model coq/theories/C19/Model.v of capability/{capability,versionRange,target,defaultVersion}.go (tied by this correspondence check)",
            "harness/cmd/c19 (runs the implementation, tabulates the comparers into Gen/GenC19.v, classifies error messages by their fixed prefixes), "
            "ocaml/driver.ml, extraction with ExtrOcamlBasic only"]
 ASSUMPTIONS = ["the comparer is a deterministic function of its two arguments (modelled as cmp : ver -> ver -> option Z, None = error); nothing else is assumed about it",
-               "a capability is identified by its pointer (integer id in the model); the same pointer registered twice has the same ranges",
+               "a capability is identified by its pointer (integer id / position in the object list in the model); the same pointer registered twice has the same ranges; "
+               "the description never takes part in an answer",
+               "the zero value DefaultVersion{} (nil map: SetCapability panics) is outside the property; it is only compared with the model",
                "DefaultVersion's map is modelled as the list of SetCapability calls, newest first",
                "the independent semantic-version ordering is only claimed for MAJOR.MINOR.PATCH[-pre][+build] without leading zeros and numbers below 2^63; "
                "github.com/hashicorp/go-version itself is outside the property (the comparer is a parameter)"]
@@ -43,4 +54,8 @@ def nontrivial(c):
         return True
     if c[0] == "2":
         return " " in c[1]
+    if c[0] in ("4", "7"):
+        return re.search(r"\$[0-9a-f.]* \(\(?\d", c[1]) is not None
+    if c[0] in ("5", "6"):
+        return True
     return re.search(r"\(\d+ \(\d", c[1]) is not None
